@@ -157,6 +157,27 @@ Theorem c20_config_spec : forall U t content,
 Proof. intros. split; [apply configured_spec|apply configured_total]. Qed.
 Print Assumptions c20_config_spec.
 
+(* histories of the configuration front end in one process (NewConfig calls, the owner assigning
+   cfg.NamingFormat, reads, formatting with a configuration), for EVERY history: each NewConfig result
+   is a function of its own argument only (Spec.expected (SNew s) ignores the past), a configuration
+   holds the template it was created with or what was last assigned to IT, and names formatted with it
+   are the Spec's rendering of that template.  Configurations never alias. *)
+Theorem c20_config_history : forall U ops,
+  Forall2 agrees (hrun U [] ops) (expected_all U [] (map sop_of ops)).
+Proof. intros U ops. apply hrun_refines. apply hinv_nil. Qed.
+Print Assumptions c20_config_history.
+
+Theorem c20_config_call_pure : forall U st s, fst (hstep U st (HNew s)) = new_config U s.
+Proof. reflexivity. Qed.
+Print Assumptions c20_config_call_pure.
+
+Theorem c20_config_no_alias : forall past,
+  (forall i j v, i <> j -> held (SSet j v :: past) i = held past i) /\
+  (forall s i, (i < created past)%nat -> held (SNew s :: past) i = held past i) /\
+  (forall s, held (SNew s :: past) (created past) = Some (effective_template s)).
+Proof. intro past. split; [intros; apply held_set_other; assumption|]. split; [intros; apply held_new_other; assumption|apply held_new_self]. Qed.
+Print Assumptions c20_config_no_alias.
+
 (* ---------------- non-vacuity and documented examples (ASCII: the oracle is never consulted) ---------------- *)
 Definition U0 : unicode := mkU (fun r => r) (fun r => r) (fun r => r) (fun _ => false) (fun _ => false)
                                (fun _ => false) (fun _ => false) (fun s => s).
@@ -199,6 +220,13 @@ Example c20_config_examples :
   configured_format U0 [32;32] [97;66] = Err err_config /\
   configured_format U0 [] [97;66] = Ok [97;98].
 Proof. vm_compute. repeat split; reflexivity. Qed.
+
+(* NewConfig(""), owner assigns "GO_DESIGNER", NewConfig("") again: the second one is the default again *)
+Example c20_config_history_example :
+  hrun U0 [] [HNew []; HSet 0 [71;79;95;68;69;83;73;71;78;69;82]; HNew []; HRead 1; HRead 0; HFmt 1 [97;66]]
+  = [Ok default_format; Ok []; Ok default_format; Ok default_format;
+     Ok [71;79;95;68;69;83;73;71;78;69;82]; Ok [97;98]].
+Proof. vm_compute. reflexivity. Qed.
 
 (* user_name -> UserName -> user_name *)
 Example c20_roundtrip_example :
